@@ -509,6 +509,8 @@ func checkC03(rep *core.Report) {
 	r6 := rep.Rule("R03.6", "options template: scope count and field count feed the right lists", 2)
 	r7 := rep.Rule("R03.7", "whoever reads one specifier list of a template reads the other too (records = scope fields + fields)", 1)
 	checkBothFieldLists(prog, r7, "ipfix")
+	r8 := rep.Rule("R03.8", "the built-in information model is keyed once per element, by the element's own id", 1)
+	checkModelKeys(rep, r8)
 	checkLayoutSeq(prog, r1, "ipfix", "MessageHeader", []specField{{"Version", 2}, {"Length", 2}, {"ExportTime", 4}, {"SequenceNo", 4}, {"DomainID", 4}}, "IPFIX message header (RFC 7011 3.1)")
 	checkLayoutSeq(prog, r1, "ipfix", "SetHeader", []specField{{"SetID", 2}, {"Length", 2}}, "IPFIX set header (RFC 7011 3.3.2)")
 	for _, f := range findFillers(prog, "ipfix", "TemplateHeader") {
@@ -632,6 +634,8 @@ func checkC06(rep *core.Report) {
 	r6 := rep.Rule("R06.5", "every template record handed to the cache is a fresh object", 2)
 	r7 := rep.Rule("R06.6", "whoever reads one specifier list of a template reads the other too (records = scope fields + fields)", 1)
 	checkBothFieldLists(prog, r7, "netflow/v9")
+	r8 := rep.Rule("R06.7", "the built-in information model is keyed once per element, by the element's own id", 1)
+	checkModelKeys(rep, r8)
 	checkLayoutSeq(prog, r1, "netflow/v9", "PacketHeader", []specField{{"Version", 2}, {"Count", 2}, {"SysUpTime", 4}, {"UNIXSecs", 4}, {"SeqNum", 4}, {"SrcID", 4}}, "NetFlow v9 packet header (RFC 3954 5.1)")
 	checkLayoutSeq(prog, r1, "netflow/v9", "SetHeader", []specField{{"FlowSetID", 2}, {"Length", 2}}, "flowset header")
 	checkLayoutSeq(prog, r1, "netflow/v9", "TemplateFieldSpecifier", []specField{{"ElementID", 2}, {"Length", 2}}, "field specifier (type, length)")
@@ -802,6 +806,55 @@ func checkBothFieldLists(prog *core.Program, rr *core.RuleRun, rel string) {
 				}
 			}
 		})
+		// emptiness / size tests: a comparison of the length of one list with anything but its own loop counter
+		sized := map[string]token.Pos{}
+		allInstrs(fn, func(ins ssa.Instruction) {
+			b, ok := ins.(*ssa.BinOp)
+			if !ok {
+				return
+			}
+			switch b.Op {
+			case token.EQL, token.NEQ, token.LSS, token.GTR, token.LEQ, token.GEQ:
+			default:
+				return
+			}
+			for _, pair := range [][2]ssa.Value{{b.X, b.Y}, {b.Y, b.X}} {
+				call, ok := pair[0].(*ssa.Call)
+				if !ok {
+					continue
+				}
+				bi, ok := call.Common().Value.(*ssa.Builtin)
+				if !ok || bi.Name() != "len" {
+					continue
+				}
+				_, f := fieldLoad(call.Common().Args[0])
+				if f == nil || !(f.Name() == "FieldSpecifiers" || f.Name() == "ScopeFieldSpecifiers") {
+					continue
+				}
+				if _, isPhi := pair[1].(*ssa.Phi); isPhi {
+					continue // loop bound of a walk over this very list
+				}
+				if bo, isB := pair[1].(*ssa.BinOp); isB {
+					if _, isPhi := bo.X.(*ssa.Phi); isPhi {
+						continue
+					}
+				}
+				if _, seen := sized[f.Name()]; !seen {
+					sized[f.Name()] = b.Pos()
+				}
+			}
+		})
+		if len(sized) == 1 {
+			for l, pos := range sized {
+				other := "ScopeFieldSpecifiers"
+				if l == other {
+					other = "FieldSpecifiers"
+				}
+				rr.Fail(core.FuncName(fn)+":size-test-on-both-lists", pos, "the size of "+l+" is tested but not that of "+other+": a template whose fields are all in the other list (an options template with scope fields only, or a plain template) is judged empty or short although it describes records")
+			}
+		} else if len(sized) == 2 {
+			rr.OK(core.FuncName(fn)+":size-test-on-both-lists", fn.Pos(), "sizes of both lists tested")
+		}
 		if len(reads) == 0 {
 			continue
 		}
